@@ -592,6 +592,20 @@ def r06g(rep, F):
                             c3.pairs = True
                             c3.le0, c3.lt0 = list(extra[0]), list(extra[1])
                             sg = c3.sign(alt)
+                            if sg not in ('<0', '<=0', '=0'):
+                                # one round of Fourier-Motzkin closure over the non-strict facts: p <= 0 and q <= 0 give p + q <= 0; so that, with the engine's own pairing,
+                                # up to four facts combine (min <= A, A <= max, min <= B, B <= max give min <= max and B - A <= max - min).  An extent that is LARGER than needed must not
+                                # be reported: "not shown" is only claimed after this stronger, still purely linear, argument fails too
+                                derived = []
+                                for i_, p_ in enumerate(c3.le0):
+                                    for q_ in c3.le0[i_ + 1:]:
+                                        try:
+                                            derived.append(p_ + q_)
+                                        except Exception:
+                                            pass
+                                if derived and len(derived) <= 120:
+                                    c3.le0 = c3.le0 + derived
+                                    sg = c3.sign(alt)
                             c2_saved, c2 = c2, c3
                             if sg in ('<0', '<=0', '=0'):
                                 c2 = c2_saved
